@@ -148,6 +148,18 @@ pub fn run_c17(chk: &Check, tier: Tier) {
         }
     }
     chk.add_eval(3);
+    // (first, so that a broken tree whose state space explodes still gets these probes; once a
+    // violation is known the explorations below run under tight caps)
+    if tier.thorough() {
+        huge_traffic::<ControlChange14BitMessageScanner>(chk, 0, &[(6, 5)], &[38, 6, 7, 39], (1, 1));
+        huge_traffic::<ParameterNumberMessageScanner>(chk, 0, &[(99, 1)], &[98, 6, 38, 96], (99, 1));
+        #[cfg(feature = "polling")]
+        huge_traffic::<PollingParameterNumberMessageScanner>(chk, 0, &[(99, 1)], &[98, 6, 38, 96], (99, 1));
+        huge_storm::<ControlChange14BitMessageScanner>(chk, 0, &[(6, 5)], &[38, 6, 7, 39]);
+        huge_storm::<ParameterNumberMessageScanner>(chk, 0, &[(99, 1), (98, 2), (38, 3)], &[6, 38, 96, 98]);
+        #[cfg(feature = "polling")]
+        huge_storm::<PollingParameterNumberMessageScanner>(chk, 0, &[(99, 1), (98, 2), (6, 3)], &[6, 38, 96, 98]);
+    }
     let rep = Report { reset: true, dup: true, ..Default::default() };
     for &c in &quick_channels(tier) {
         // the complete concrete state space of the 14-bit scanner: reset from all 4097 states
@@ -258,16 +270,6 @@ pub fn run_c17(chk: &Check, tier: Tier) {
         }
         chk.add_eval(n + 20);
         chk.push("traffic_2_pow_32", json!({"scanner": S::NAME, "messages": n + 20, "wall_s": t0.elapsed().as_secs_f64()}));
-    }
-    if tier.thorough() {
-        huge_traffic::<ControlChange14BitMessageScanner>(chk, 0, &[(6, 5)], &[38, 6, 7, 39], (1, 1));
-        huge_traffic::<ParameterNumberMessageScanner>(chk, 0, &[(99, 1)], &[98, 6, 38, 96], (99, 1));
-        #[cfg(feature = "polling")]
-        huge_traffic::<PollingParameterNumberMessageScanner>(chk, 0, &[(99, 1)], &[98, 6, 38, 96], (99, 1));
-        huge_storm::<ControlChange14BitMessageScanner>(chk, 0, &[(6, 5)], &[38, 6, 7, 39]);
-        huge_storm::<ParameterNumberMessageScanner>(chk, 0, &[(99, 1), (98, 2), (38, 3)], &[6, 38, 96, 98]);
-        #[cfg(feature = "polling")]
-        huge_storm::<PollingParameterNumberMessageScanner>(chk, 0, &[(99, 1), (98, 2), (6, 3)], &[6, 38, 96, 98]);
     }
 }
 
